@@ -21,7 +21,7 @@ Section Cells.
   Variable g_trace : Z -> glwe -> glwe.
   Variable g_post : glwe -> glwe.
   Variable g_expand : list glwe -> ggsw.
-  Variables (logn base2k dnum rank : Z) (expo : bool) (ld lgo : Z).
+  Variables (logn base2k dnum rank bb : Z) (expo : bool) (ld lgo : Z).
   Hypothesis Hdnum : 0 <= dnum.
   Let n := 2 ^ logn.
 
@@ -34,7 +34,7 @@ Section Cells.
 
   (* C14 (blind_rotation_phase, lut_set_then_rotate_selects): the accumulator is the table rotated by the message *)
   Hypothesis blind_rotation : forall l m, lwe_msg l m -> 0 <= m < 2 ^ ld -> quiet (blind_rotate l) ->
-    enc_poly (blind_rotate l) (br_acc logn base2k dnum expo ld m).
+    enc_poly (blind_rotate l) (br_acc logn base2k dnum bb expo ld m).
   (* C02 (phase_rotate) *)
   Hypothesis rotate_phase : forall k c q, enc_poly c q -> enc_poly (g_rot k c) (p_rot n k q).
   (* C03 (trace) *)
@@ -46,7 +46,7 @@ Section Cells.
   Hypothesis expand_rows : forall rows mp,
     length rows = Z.to_nat dnum ->
     (forall i, 0 <= i < dnum -> exists c q, nth_error rows (Z.to_nat i) = Some c /\ enc_poly c q /\
-                                            forall j, 0 <= j < n -> row_decoded base2k dnum i q j = mp j) ->
+                                            forall j, 0 <= j < n -> row_decoded base2k dnum bb i q j = mp j) ->
     quiet_ggsw (g_expand rows) ->
     forall row col, 0 <= row < dnum -> 0 <= col <= rank -> cell_enc (g_expand rows) row col mp.
 
@@ -60,7 +60,7 @@ Section Cells.
 
   Theorem circuit_bootstrap_cells : forall l m,
     lwe_msg l m -> 0 <= m < 2 ^ ld ->
-    cbt_rows_ok logn base2k dnum expo ld lgo m = true ->
+    cbt_rows_ok logn base2k dnum bb expo ld lgo m = true ->
     cbt_quiet l ->
     forall row col, 0 <= row < dnum -> 0 <= col <= rank ->
       cell_enc (cbt_ct l) row col (cand logn expo lgo m).
@@ -70,7 +70,7 @@ Section Cells.
     - unfold C15Cbt.cbt_rows_ct. now rewrite map_length, zseq_length.
     - intros i Hi. unfold cbt_rows_ok in Hok. rewrite forallb_forall in Hok.
       specialize (Hok i ltac:(apply in_zseq; rewrite Z2Nat.id by lia; lia)).
-      destruct (cb_row logn base2k dnum expo ld lgo m i) as [q|] eqn:Eq; [|discriminate].
+      destruct (cb_row logn base2k dnum bb expo ld lgo m i) as [q|] eqn:Eq; [|discriminate].
       exists (cbt_row_ct (blind_rotate l) i), q. split; [|split; [|apply (poly_eqb_spec logn); exact Hok]].
       { unfold C15Cbt.cbt_rows_ct. rewrite nth_error_map.
         rewrite (nth_error_nth' _ 0) by (rewrite zseq_length; lia). rewrite nth_zseq by lia.
@@ -80,7 +80,8 @@ Section Cells.
         rewrite Z2Nat.id by lia. lia. }
       pose proof (blind_rotation l m Hl Hm Q1) as Hacc.
       pose proof (rotate_phase (- (i * cb_gap logn dnum ld)) _ _ Hacc) as Hrot.
-      unfold cb_row in Eq. unfold C15Cbt.cbt_row_ct in *. cbv zeta in *. fold n in Eq.
+      unfold cb_row in Eq. destruct (cb_asserts base2k dnum bb expo ld); [|discriminate].
+      unfold C15Cbt.cbt_row_ct in *. cbv zeta in *. fold n in Eq.
       destruct expo.
       + eapply post_phase; eauto.
       + injection Eq as <-. apply trace_phase; auto.
@@ -92,13 +93,21 @@ End Cells.
 
 (* constant mode: log_domain 1 and 2, every message *)
 Lemma cbt_rows_ok_constant_test :
-  forallb (fun ld => forallb (fun m => cbt_rows_ok 8 13 2 false ld 0 m) (zseq 0 (Z.to_nat (2 ^ ld)))) [1; 2] = true.
+  forallb (fun ld => forallb (fun m => cbt_rows_ok 8 13 2 12 false ld 0 m) (zseq 0 (Z.to_nat (2 ^ ld)))) [1; 2] = true.
 Proof. vm_compute. reflexivity. Qed.
 
 (* exponent mode, both branches of post_process: packing (log_gap_out <> log_gap_in) and trace only
    (log_gap_out = log_gap_in = 7 for log_domain 1, 6 for log_domain 2) *)
 Lemma cbt_rows_ok_exponent_test :
   log_gap_in 8 2 1 = 7 /\ log_gap_in 8 2 2 = 6 /\
-  forallb (fun lgo => forallb (fun m => cbt_rows_ok 8 13 2 true 1 lgo m) [0; 1]) [0; 1; 2; 3; 4; 5; 6; 7] = true /\
-  forallb (fun lgo => forallb (fun m => cbt_rows_ok 8 13 2 true 2 lgo m) [0; 1; 2; 3]) [0; 1; 2; 3; 4; 5; 6] = true.
+  forallb (fun lgo => forallb (fun m => cbt_rows_ok 8 13 2 12 true 1 lgo m) [0; 1]) [0; 1; 2; 3; 4; 5; 6; 7] = true /\
+  forallb (fun lgo => forallb (fun m => cbt_rows_ok 8 13 2 12 true 2 lgo m) [0; 1; 2; 3]) [0; 1; 2; 3; 4; 5; 6] = true.
 Proof. vm_compute. auto. Qed.
+
+(* the parameter sets whose lookup-table coefficients leave i64 are rejected by the assert (since /repo a84e8a5);
+   before the repair every assert passed there and row 0 of the GGSW was wrong *)
+Lemma cbt_lut_overflow_rejected :
+  cb_asserts 21 4 14 false 1 = false /\ cb_row 8 21 4 14 false 1 0 1 0 = None /\
+  cb_asserts 20 4 14 false 1 = false /\ cb_asserts 30 3 15 false 4 = false /\ cb_asserts 21 4 14 true 1 = false /\
+  cb_asserts 13 2 12 false 1 = true /\ cb_asserts 13 2 12 true 1 = true /\ cb_asserts 20 3 15 false 1 = true.
+Proof. vm_compute. repeat split; reflexivity. Qed.
